@@ -136,19 +136,40 @@ def realmap_run(eng, lay, cfg, mutation, path):
     mt = make_matcher(eng, mp, cfg)
     st, idx = mt.match(path)
     out.append(dict(tag='before_change', states=st, lb=list(mt.lattice_best or []), view=GraphView(mp), mt=mt))
+    out[-1]['offered_bad'] = offered_moves_bad(mp, out[-1]['view'])
     realmap_apply(mp, mutation)
     view = GraphView(mp)
     mt2 = make_matcher(eng, mp, cfg)
     st, idx = mt2.match(path)
     out.append(dict(tag='after_change_fresh_matcher', states=st, lb=list(mt2.lattice_best or []), view=view, mt=mt2))
+    out[-1]['offered_bad'] = offered_moves_bad(mp, view)
     st, idx = mt.match(path)
     out.append(dict(tag='after_change_same_matcher', states=st, lb=list(mt.lattice_best or []), view=view, mt=mt))
     return out
 
 
+def offered_moves_bad(mp, view):
+    """moves that the map's own neighbour queries offer although the graph dictionary / linked-edge table does not contain them"""
+    bad = []
+    for u in view.G:
+        for n in mp.nodes_nbrto(u):
+            if n[0] != u and n[0] not in view.G[u]:
+                bad.append(('nodes_nbrto', u, n[0]))
+        for v in view.G[u]:
+            if v == u:
+                continue
+            for l3, _, l4, _ in mp.edges_nbrto((u, v)):
+                ok = (l3 == v and (l4 in view.G.get(v, []) or l4 == v)) or ((l3, l4) in view.linked.get((u, v), []) and l4 in view.G.get(l3, []))
+                if not ok:
+                    bad.append(('edges_nbrto', (u, v), (l3, l4)))
+    return bad
+
+
 def realmap_claims(results, cfg):
     cl = []
     for r in results:
+        if 'offered_bad' in r:
+            cl.append((f"{r['tag']}:map_offers_only_moves_present_in_its_graph ({r['offered_bad'][:3]})", LL.zb(not r['offered_bad'])))
         if not r['states'] or not r['lb']:
             continue
         class V:
@@ -174,7 +195,8 @@ def run_realmap(inst):
 
     def scenario():
         eng = E.get_engine()
-        path = greal.make_path(eng, 2, '1d')
+        # par_link: first observation next to the two-way road, second one next to the parallel one-way road
+        path = greal.make_path(eng, 2, '1d', **(dict(ys=(0.05, 0.28)) if lay == 'par_link' else {}))
         return dict(path=path, results=realmap_run(eng, lay, cfg, mutation, path))
 
     def claims(eng, v):
@@ -213,6 +235,9 @@ def realmap_concrete(lay, fam, ne, mutation, cpath):
         except Exception:
             return None                      # totality is C17's subject
         for r in results:
+            if r.get('offered_bad'):
+                return (f"InMemMap layout {lay}, map change {mutation}: {r['tag']}: the map's neighbour queries offer moves that its graph / linked-edge table "
+                        f"does not contain: {r['offered_bad'][:4]}; graph now {r['view'].G}, linked {r['view'].linked}")
             if not r['states'] or not r['lb']:
                 continue
             keys = [m.shortkey for m in r['lb']]
@@ -260,7 +285,7 @@ def main(tier):
                                                                 ('oneway3', ('add_node', 'D', (0.0, 3.0), [('C', 'D')])), ('line3', ('del_node', 'C')))
             for fam, ne in (('simple_n', True), ('dist', True)) + ((('simple', False),) if tier == 'thorough' else ())]
     # linked parallel edges declared for one direction of a two-way road only (real InMemMap.edges_nbrto)
-    real += [('realmap', 'par_link', fam, ne, ('none',), rb) for fam, ne in (('dist', False), ('simple', True))]
+    real += [('realmap', 'par_link', fam, ne, ('none',), rb) for fam, ne in (('simple', False), ('simple', True))]
     res = list(res) + list(run_instances(run_instance, real))
     ch = run_crosshair(tier)
     rep.extra['crosshair_node_path_to_only_nodes'] = ch
